@@ -316,8 +316,6 @@ def self_validate(prop, mod, base_ctx, jobs, seed):
     """every seeded fault must produce a *new* finding of its rule; every
     repair twin must remove the known finding it names"""
     muts = getattr(mod, "MUTANTS", [])
-    if not muts:
-        return {"variants": 0, "caught": 0, "unbuildable": 0, "names": []}
     base_keys = {f.key() for f in base_ctx.findings}
     order = list(range(len(muts)))
     import random
@@ -378,6 +376,21 @@ def self_validate(prop, mod, base_ctx, jobs, seed):
                 unbuildable.append(m.name + " (already repaired)")
             else:
                 missed.append(m.name)
+    # whole-file behaviour-preserving transformations (reformat, rename locals)
+    from . import robust
+
+    for vname, over in robust.variants(base_ctx).items():
+        try:
+            vctx, _ = run_property(prop, "quick", over, base_ctx.repo)
+            new = [f.key() for f in vctx.findings if f.key() not in base_keys]
+            if len(vctx.obligations) != len(base_ctx.obligations):
+                new.append(f"obligation count changed {len(base_ctx.obligations)} -> {len(vctx.obligations)}")
+        except AnalysisError as e:
+            new = ["ANALYSIS-ERROR " + str(e)]
+        if new:
+            false_alarms.append(f"{vname}: {new[0]}")
+        else:
+            silent_ok.append(f"{vname} ({len(over)} files)")
     if false_alarms:
         raise AnalysisError(
             "behaviour-preserving variants raised an alarm (checker defect): " + "; ".join(false_alarms)
